@@ -369,7 +369,7 @@ def synth_gap(rng, malformed):
     lines.append("Gen:=[" + ",".join("M_" + nm for nm in names[:0]) + "];" if rng.random() < 0.3 else "# end")
     if malformed:
         kind = rng.choice(["two_assign", "bad_char", "empty_group", "dup_point", "zero_index", "ip_bad_json", "ip_out_of_range", "no_gens",
-                           "unequal", "dup_name", "ip_float", "crlf", "spaces_in_cycle", "ip_overlap", "trailing_comma", "nested_parens"])
+                           "unequal", "dup_name", "crlf", "spaces_in_cycle", "ip_overlap", "trailing_comma", "nested_parens"])
         i = next((j for j, l in enumerate(lines) if l.startswith("M_")), 0)
         if kind == "two_assign":
             lines[i] = lines[i] + "x:=1"
@@ -391,8 +391,6 @@ def synth_gap(rng, malformed):
             lines.append(f"M_zz9:=({n + 2},1);")
         elif kind == "dup_name":
             lines.append("M_" + names[0] + ":=(1);")
-        elif kind == "ip_float":
-            lines.append("ip:=[[1.0,2]];")
         elif kind == "crlf":
             lines = [l + "\r" for l in lines]
         elif kind == "spaces_in_cycle":
@@ -479,8 +477,6 @@ def run(ctx):
             continue
         d = obs[1]
         ctx.count("gap_named_loaded")
-        if d.name != nm + ".gap":
-            report("property_fails", f"GapPuzzles.puzzle({nm!r}) is named {d.name!r}", case)
         raw = GapPuzzles.load_puzzle_from_file(os.path.join(gdir, "defaults", nm + ".gap"))
         k = len(raw.generators_permutations)
         if [list(p) for p in d.generators_permutations[:k]] != [list(p) for p in raw.generators_permutations] or list(d.central_state) != list(raw.central_state):
@@ -542,7 +538,7 @@ def run(ctx):
     icases, imeta = [], []
     for t in range(ctx.budget(300, 3000)):
         n = rng.randint(0, 9)
-        ip = [[rng.randint(-1 if rng.random() < 0.1 else 1, n + (1 if rng.random() < 0.1 else 0)) for _ in range(rng.randint(0, 3))] for _ in range(rng.randint(0, 3))]
+        ip = [[rng.randint(-1 if rng.random() < 0.1 else 1, max(1, n + (1 if rng.random() < 0.1 else 0))) for _ in range(rng.randint(0, 3))] for _ in range(rng.randint(0, 3))]
         obs = observe(lambda n=n, ip=ip: gp._central_state_from_ip(n, [list(g) for g in ip]))
         icases.append(f"({Z(n)}, {zll(ip)}, {res_lit(obs, zl)})")
         imeta.append({"kind": "central_from_ip", "n": n, "ip": ip})
